@@ -375,8 +375,12 @@ impl<'a> Parser<'a> {
         let hack_source = self.parse_optional_hack_source();
         let token = self.peek();
         if token.kind != TokenKind::Identifier {
-            // TODO
-            // self.record_error(error)
+            // Without a recorded error the callers would unwrap this `Err`.
+            let error = Diagnostic::error(
+                SyntaxError::Expected(TokenKind::Identifier),
+                Location::new(self.source_location, token.span),
+            );
+            self.record_error(error);
             return Err(());
         }
         match self.source(token) {
